@@ -2,6 +2,9 @@
 // bytes, num_rational, std::time::Duration, thiserror's generated `From<io::Error>`.
 // Nothing in this directory is repository code.  See DESIGN.md section 2.2.
 
+/// used only by the vacuity probe (tool/vacuity.py): an unprovable fact, distinct per probed function
+pub uninterp spec fn vacuity_probe(k: int) -> bool;
+
 // 64-bit target (the sandbox and every supported deployment of the crate's test-suite): usize is 8 bytes
 global size_of usize == 8;
 
